@@ -276,6 +276,22 @@ def check_wrappers(run, jax, jnp, ex, rng, tier):
                         wh = st.step_fourier(wh)
                     if maxabs(gh - np.asarray(wh)) > 1e-9 * (1 + maxabs(wh)):
                         run.violation(dict(key, what="step_fourier"), {})
+                # states WITH Nyquist content: the specification (MC_Rollout.SubStep / Layout.Realify) says sub-stepping in Fourier space equals
+                # physical stepping whenever the multiplier is real on the self-conjugate lines, i.e. for every class whose linear symbol has
+                # even orders only (the nonlinear terms never see the Nyquist mode: it is removed by the dealiasing)
+                from .. import zoo
+                if name not in zoo.ODD_ORDER_LINEAR:
+                    uw = jnp.asarray(rng.standard_normal((C,) + (N,) * D) * 0.3)
+                    for m in ms[:2]:
+                        run.case(("repeated-nyquist", name, D, N, m))
+                        got = np.asarray(ex.RepeatedStepper(st, m)(uw))
+                        want = uw
+                        for _ in range(m):
+                            want = st(want)
+                        want = np.asarray(want)
+                        if got.shape != want.shape or maxabs(got - want) > 1e-9 * (1 + maxabs(want)):
+                            run.violation({"kind": "RepeatedStepper", "cls": name, "D": D, "N": N, "m": m, "what": "state with Nyquist content"},
+                                          {"err": maxabs(got - want) if got.shape == want.shape else "shape"})
                 # ForcedStepper
                 run.case(("forced", name, D, N))
                 f = rng.standard_normal(u.shape) * 0.5
